@@ -722,6 +722,27 @@ fn system_cases(w: &mut dyn Write, r: &mut Rng, sys: &mut System, cname: &str, c
                 cnt += 1;
             }
         }
+        // malformed auxiliary openings / FRI part at the multi-table entry: CtlCheckVars::from_proof and
+        // get_challenges read them before any shape validation can run (validate_proof_shape needs their counts)
+        for ti in 0..sys.tables.len().min(2) {
+            for (what, f) in [("auxiliary_polys:None", 0usize), ("auxiliary_polys:drop-last", 1), ("auxiliary_polys_next:None", 2), ("auxiliary_polys_next:empty", 3),
+                              ("auxiliary_polys:empty", 4), ("query_round_proofs:empty", 5), ("first-round:evals_proofs:empty", 6)] {
+                let mut q = proofs.clone();
+                let o = &mut q[ti].proof.openings;
+                match f {
+                    0 => o.auxiliary_polys = None,
+                    1 => { if let Some(v) = o.auxiliary_polys.as_mut() { v.pop(); } }
+                    2 => o.auxiliary_polys_next = None,
+                    3 => o.auxiliary_polys_next = Some(vec![]),
+                    4 => o.auxiliary_polys = Some(vec![]),
+                    5 => q[ti].proof.opening_proof.query_round_proofs.clear(),
+                    _ => { if let Some(r0) = q[ti].proof.opening_proof.query_round_proofs.first_mut() { r0.initial_trees_proof.evals_proofs.clear() } }
+                }
+                let vo = vs(sys, cfg, &q);
+                writeln!(w, "c18ctl {fam} table{ti}:{what} = {} ", if vo.starts_with("err") { "err" } else { &vo }).unwrap();
+                cnt += 1;
+            }
+        }
         // proofs of two tables swapped
         if sys.tables.len() >= 2 {
             let mut q = proofs.clone();
@@ -1176,8 +1197,27 @@ pub fn run(seed: u64, tier: &str, w: &mut dyn Write) -> usize {
             }
         }
     }
-    // ---- the in-repo PermutationStark as it is declared there: constraint_degree() = 0.
-    // Informational: with degree 0 there is no quotient, so no constraint (lookups included) is checked.
+    // ---- the in-repo PermutationStark as it is declared there: constraint_degree() = 0 (lookup.rs supports it
+    // explicitly: `constraint_degree.checked_sub(1).unwrap_or(1)`).  With degree 0 there is no quotient, so the
+    // lookup constraints that eval_vanishing_poly adds are compared with nothing: the property fails for this
+    // declared shape (known finding); the valid trace must still be accepted
+    for lg in [4usize, 5] {
+        let (b, info) = build_perm_info(&mut r, 1 << lg, 1, 2, false);
+        let spec0 = Arc::new(FamSpec { name: "lookup1-declared-degree0".into(), degree: 0, ncols: b.spec.ncols, npi: b.spec.npi, cons: vec![],
+                                       lookups: b.spec.lookups.clone(), ctl: false });
+        let drv = driver(spec0);
+        let cfg = &cfgs[0].1;
+        let fam = format!("lookup1-declared-degree0/n{}/{}", 1 << lg, cfgs[0].0);
+        let (po, vo, _) = pv(&drv, cfg, &b.rows, &b.pis);
+        writeln!(w, "c10 {fam} honest = {} # holds=1 prover={po} verify={vo}", (vo == "ok") as u8).unwrap();
+        let (row, col, _) = info.cells[0];
+        let mut rows = b.rows.clone();
+        rows[row][col] += F::ONE;
+        let holds = lookup_holds(&b.spec.lookups[0], &rows);
+        let (po, vo, _) = pv(&drv, cfg, &rows, &b.pis);
+        writeln!(w, "c10 {fam} corrupt:looking:0 = {} # row={row} col={col} holds={} prover={po} verify={vo}", accepted_iff(holds, &vo) as u8, holds as u8).unwrap();
+        cnt += 2;
+    }
     {
         let (b, info) = build_perm_info(&mut r, 16, 1, 2, false);
         let spec0 = Arc::new(FamSpec { name: "lookup1-declared-degree0".into(), degree: 0, ncols: b.spec.ncols, npi: b.spec.npi, cons: vec![],
